@@ -338,7 +338,9 @@ class ParseFunc(_ast_util.NodeVisitor):
     def visit_FunctionDef(self, node):
         self.listener.funcname = node.name
 
-        argnames = [arg_id(arg) for arg in node.args.args]
+        posonly = [arg_id(arg) for arg in node.args.posonlyargs]
+        argnames = posonly + [arg_id(arg) for arg in node.args.args]
+        self.listener.posonlycount = len(posonly)
         if node.args.vararg:
             argnames.append(node.args.vararg.arg)
 
